@@ -267,6 +267,22 @@ def call_index(fn, call):
     return calls.index(call) + 1
 
 
+def error_test(t, e):
+    """outcome of a test on the error variable `e` where it is known to hold an exception object, else None"""
+    if isinstance(t, ast.UnaryOp) and isinstance(t.op, ast.Not):
+        v = error_test(t.operand, e)
+        return None if v is None else not v
+    if isinstance(t, ast.Name) and t.id == e:
+        return True
+    if isinstance(t, ast.Compare) and len(t.ops) == 1 and isinstance(t.left, ast.Name) and t.left.id == e \
+            and isinstance(t.comparators[0], ast.Constant) and t.comparators[0].value is None:
+        if isinstance(t.ops[0], (ast.IsNot, ast.NotEq)):
+            return True
+        if isinstance(t.ops[0], (ast.Is, ast.Eq)):
+            return False
+    return None
+
+
 def ni3(run, mod, q, fn, cfg, tnode, stmt, e, reached):
     """From the false edge of the mode test: on every path the first yield is WarningEvent(error=e);
     a MarshalEvent yield is tolerated once if it is built from the value that failed validation."""
@@ -285,9 +301,10 @@ def ni3(run, mod, q, fn, cfg, tnode, stmt, e, reached):
             continue
         if n.kind == "test":
             t = n.ast
-            # `if e:` on this path e is the error object (truthy)
-            if isinstance(t, ast.Name) and t.id == e:
-                stack.extend((s, carve) for lab, s in n.succ if lab == "true")
+            # `if e:` / `if e is not None:` / `if not e:` ... - on this path e is the error object (truthy, not None)
+            known = error_test(t, e)
+            if known is not None:
+                stack.extend((s, carve) for lab, s in n.succ if lab == ("true" if known else "false"))
                 continue
             stack.extend((s, carve) for _, s in n.succ)
             continue
